@@ -58,6 +58,8 @@ type Case12 struct {
 	Via       string `json:"via,omitempty"`
 	Ref       B      `json:"ref,omitempty"`
 	TouchBase bool   `json:"touch_base,omitempty"`
+	// Blind: nothing is read from the URL or its lists between the steps (see CaseHist.Blind)
+	Blind bool `json:"blind,omitempty"`
 }
 
 // queryPartOfHref: the text between the first '?' and the '#' of the serialization ("" if no '?').
@@ -128,7 +130,102 @@ func collapseList(l []spec.Pair) listModel {
 	return out
 }
 
+// check12Blind: the operations of the history are applied without reading anything in between — no
+// getter, no serialization, no list look-up (every invariant of Check12 reads, and a read brings a
+// list that was only marked stale up to date before the next step sees it). The expected query is
+// carried by the reference model's URL, the expected list by the list model; both are compared with
+// the URL and with every handle after the last step only. Steps that are reads themselves, or that
+// hand lists around, are left out.
+func check12Blind(c Case12, r *core.Rec) {
+	u, err := url.Parse(string(c.Start))
+	mu, mok := Model.Parse(string(c.Start), nil)
+	if err != nil || u == nil || !mok {
+		r.Vacuous()
+		return
+	}
+	muQuery := func() string {
+		if mu.Query == nil {
+			return ""
+		}
+		return *mu.Query
+	}
+	var handles []*url.SearchParams
+	var model listModel
+	known, sawSetSearch, mutatedAfter := false, false, false
+	var names []string
+	var applied []Op12
+	for _, o := range c.Ops {
+		switch o.Kind {
+		case "fetch":
+			handles = append(handles, u.SearchParams())
+			if !known {
+				model, known = collapseList(spec.ParseURLEncoded(muQuery())), true
+			}
+		case "sp":
+			mut := o.SP.Op == "append" || o.SP.Op == "delete" || o.SP.Op == "set" || o.SP.Op == "sort" || o.SP.Op == "sortabs" || o.SP.Op == "iterate"
+			if len(handles) == 0 || !mut {
+				continue
+			}
+			if !validUTF8List(model) || ((o.SP.Op == "sort" || o.SP.Op == "sortabs") && sortAmbiguous(model)) {
+				r.Vacuous()
+				return
+			}
+			applyImpl(handles[o.Handle%len(handles)], o.SP)
+			model = model.apply(o.SP)
+			names = append(names, string(o.SP.Name))
+			if q := twinString(model); q == "" {
+				mu.Query = nil
+			} else {
+				mu.Query = &q
+			}
+			if sawSetSearch {
+				mutatedAfter = true
+			}
+		case "setsearch":
+			for j, p := range model {
+				if j < 4 || j >= len(model)-4 {
+					names = append(names, p.Name)
+				}
+			}
+			Model.Set(mu, spec.SetterSearch, string(o.Value))
+			u.SetSearch(string(o.Value))
+			model, known, sawSetSearch = collapseList(spec.ParseURLEncoded(muQuery())), true, true
+		case "setter":
+			Model.Set(mu, o.Setter, string(o.Value))
+			ApplySetter(u, o.Setter, string(o.Value))
+		default:
+			continue
+		}
+		applied = append(applied, o)
+	}
+	if len(applied) == 0 || !known || !validUTF8List(model) {
+		r.Vacuous()
+		return
+	}
+	r.Class("blind-history")
+	shown, last := c, len(applied)-1
+	shown.Ops = applied
+	if sawSetSearch && mutatedAfter {
+		r.NT()
+	}
+	if got, want := u.Query(), muQuery(); got != want {
+		r.Failf("after [nothing read between the steps] %s: Query() is %s, expected %s (list model %s)", hist12(shown, last), quote(got), quote(want), pairsString(model))
+		return
+	}
+	all := append(append([]*url.SearchParams{}, handles...), u.SearchParams())
+	for hi, h := range all {
+		if msg := listAgrees(h, model, names); msg != "" {
+			r.Failf("after [nothing read between the steps] %s: handle %d of %d: %s (list model %s)", hist12(shown, last), hi, len(all), msg, pairsString(model))
+			return
+		}
+	}
+}
+
 func Check12(c Case12, r *core.Rec) {
+	if c.Blind && c.Via == "" {
+		check12Blind(c, r)
+		return
+	}
 	u, err := url.Parse(string(c.Start))
 	if err != nil || u == nil {
 		r.Vacuous()
@@ -418,6 +515,7 @@ func Gen12(t *rapid.T) Case12 {
 				c.Ops = append(c.Ops, o)
 			}
 		}
+		c.Blind = c.Via == "" && rapid.IntRange(0, 3).Draw(t, "blind") == 0
 		return c
 	}
 	n := rapid.IntRange(1, 12).Draw(t, "nops")
@@ -443,6 +541,7 @@ func Gen12(t *rapid.T) Case12 {
 			c.Ops = append(c.Ops, genSetter())
 		}
 	}
+	c.Blind = c.Via == "" && rapid.IntRange(0, 3).Draw(t, "blind") == 0
 	return c
 }
 
@@ -461,7 +560,7 @@ func genMediumQuery(t *rapid.T) string {
 var P12 = core.Register(core.Prop[Case12]{
 	ID: "C12",
 	Rule: "a start URL (special / non-special, with and without query and fragment, opaque path; a quarter of the cases obtained by resolving a reference against — or cloning — a URL whose SearchParams() was or was not called before) and 1..12 steps: fetch a SearchParams handle (at any point, repeatedly), a list operation through any live handle, SetSearch(v) (incl. '', '?', delimiters, '#', tab), another setter (hash, pathname, host, protocol, username, port), SetSearchParams with a Clone of the URL's own list (which then is its list), another URL being handed this URL's list, a list operation on a Clone of the URL or on the result of resolving '' / '#x' against it (not an operation on this URL: query and handles stay); lists of 9..40 parameters in an eighth of the starts and setter values, and the names a replaced list held stay among the names looked up; " +
-		"oracle, after every step: I1 after a list mutation Query / Search / the query part of Href equal the list's serialization, and so does the list u.SearchParams() returns then; I2 after SetSearch every live handle and a fresh one equal the form-urlencoded parse of the new query (empty after clearing); I3 other setters leave the query and the list alone; I4 all live handles show the same expected list (Get/GetAll/Has for all names in play + String); " +
+		"oracle, after every step (a quarter of the directly parsed histories are blind: nothing is read between the steps, the expected query is carried by the reference model's URL and the list model, and Query() and every handle are compared after the last step only): I1 after a list mutation Query / Search / the query part of Href equal the list's serialization, and so does the list u.SearchParams() returns then; I2 after SetSearch every live handle and a fresh one equal the form-urlencoded parse of the new query (empty after clearing); I3 other setters leave the query and the list alone; I4 all live handles show the same expected list (Get/GetAll/Has for all names in play + String); " +
 		"non-trivial = the history has a SetSearch followed by a list mutation through a handle obtained before it; distinct by hash of the history",
 	Gen:   Gen12,
 	Check: Check12,
